@@ -30,12 +30,16 @@ structure Fixes where
   /-- F300: `xml_print_opaq_open` writes `xmlns=""` for an element in no namespace when a non-empty default namespace is in scope
       (`xml_default_ns_in_scope`) -/
   undeclare : Bool
+  /-- F301: `xml_print_term` declares the modules of the prefixes inside the value through `xml_print_ns` (REQUIRED) instead of
+      writing `xmlns:prefix` attributes itself -/
+  termNs : Bool
   deriving Repr, DecidableEq, Inhabited
 
-def Fixes.all : Fixes := { numbered := true, reserved := true, undeclare := true }
+def Fixes.all : Fixes := { numbered := true, reserved := true, undeclare := true, termNs := true }
 
 /-- the variant `tools/extractors/xmlns.py` found in the source tree the check runs against (what the driver prints with) -/
-def Fixes.current : Fixes := { numbered := Generated.xmlNsNumbered, reserved := Generated.xmlNsReserved, undeclare := Generated.xmlNsUndeclare }
+def Fixes.current : Fixes := { numbered := Generated.xmlNsNumbered, reserved := Generated.xmlNsReserved, undeclare := Generated.xmlNsUndeclare,
+                               termNs := Generated.xmlNsTermNs }
 
 /-- the (prefix, uri) pairs of the value prefix data of the opaque node being opened and of all its attributes
     (`pctx->opaq`; `[]` when no opaque start tag is being printed) -/
